@@ -91,6 +91,26 @@ def _position_of_equal(prog, fn, L, b):
     return True
 
 
+def _resolve_place(fn, pl):
+    """Look through the temporaries an inlined accessor leaves behind: `_t = copy <place>` (single definition) and a base
+    local that is a single-definition copy of the receiver parameter (`_self2 = copy _1`)."""
+    for _ in range(8):
+        ds = fn.defs().get(pl["l"], [])
+        if pl["l"] <= fn.arg_count or len(ds) != 1 or ds[0][1] != "assign" or ds[0][2]["lhs"]["p"]:
+            return pl
+        rv = ds[0][2]["rhs"]
+        if rv["rv"] == "use" and rv["a"].get("k") in ("cp", "mv"):
+            src = rv["a"]["pl"]
+            pl = {"l": src["l"], "p": list(src["p"]) + list(pl["p"])}
+            continue
+        if rv["rv"] == "ref" and pl["p"][:1] == ["*"]:
+            src = rv["pl"]
+            pl = {"l": src["l"], "p": list(src["p"]) + list(pl["p"][1:])}
+            continue
+        return pl
+    return pl
+
+
 def check_class_slot(ctx, prog, R):
     """The size class of a slot selects its free-list head: wherever the mapping function returns `free_list_offset[j]`,
     either j is the last index (the shared list of large slots) or the return is guarded by `size_ary[j] == <size param>`
@@ -108,6 +128,7 @@ def check_class_slot(ctx, prog, R):
             if st["s"] == "assign" and st["lhs"]["l"] == 0 and not st["lhs"]["p"]:
                 rv = st["rhs"]
                 pl = rv["a"].get("pl") if rv["rv"] == "use" and rv["a"].get("k") in ("cp", "mv") else None
+                pl = _resolve_place(fn, pl) if pl else None
                 if pl and pl["l"] == 1 and len(pl["p"]) >= 2 and pl["p"][-1].startswith("idx:") and any(e.endswith(dot(prog, "MGR.heads")) for e in pl["p"]):
                     rets.append((b, int(pl["p"][-1][4:])))
                 else:
